@@ -19,6 +19,15 @@ type c16Key struct {
 	EnvMode  string `json:"env_mode"`  // "" (absent) | value | novalue | empty
 	RefTo    string `json:"ref_to"`    // when set: the value in the LAST file that defines it is `${RefTo}-r`
 	RefLayer int    `json:"ref_layer"` // informational
+	EmptyIn  []bool `json:"empty_in,omitempty"` // env file i defines the key with the empty string (`KEY=`): a definition like any other
+}
+
+// valueIn is the literal value env file f gives the key.
+func (k c16Key) valueIn(f int) string {
+	if f < len(k.EmptyIn) && k.EmptyIn[f] {
+		return ""
+	}
+	return fmt.Sprintf("f%d-%s", f, k.Name)
 }
 
 type c16Label struct {
@@ -95,6 +104,7 @@ func genC16(t *rapid.T) c16Case {
 		k.InPEnv = rapid.IntRange(0, 2).Draw(t, "penv") == 0
 		for f := 0; f < cs.NFiles; f++ {
 			k.InFiles = append(k.InFiles, rapid.IntRange(0, 2).Draw(t, "infile") == 0)
+			k.EmptyIn = append(k.EmptyIn, rapid.IntRange(0, 4).Draw(t, "emptyinfile") == 0)
 		}
 		k.EnvMode = rapid.SampledFrom([]string{"", "", "value", "value", "novalue", "empty"}).Draw(t, "envmode")
 		cs.Keys = append(cs.Keys, k)
@@ -174,7 +184,7 @@ func (cs c16Case) build() (loadCase, map[string]*string, map[string]string, bool
 				if k.RefTo != "" {
 					b.WriteString(fmt.Sprintf("%s=${%s}-r\n", k.Name, k.RefTo))
 				} else {
-					b.WriteString(fmt.Sprintf("%s=f%d-%s\n", k.Name, f, k.Name))
+					b.WriteString(fmt.Sprintf("%s=%s\n", k.Name, k.valueIn(f)))
 				}
 			}
 		}
@@ -210,7 +220,7 @@ func (cs c16Case) build() (loadCase, map[string]*string, map[string]string, bool
 					}
 					env[k.Name] = v + "-r"
 				} else {
-					env[k.Name] = fmt.Sprintf("f%d-%s", f, k.Name)
+					env[k.Name] = k.valueIn(f)
 				}
 			}
 		}
@@ -448,7 +458,7 @@ func c16Check(c *Ctx, cs c16Case) *Failure {
 			for f := 0; f < last; f++ { // earlier files only: the lookup wins over earlier lines of the same file
 				for _, o := range cs.Keys {
 					if o.Name == k.RefTo && f < len(o.InFiles) && o.InFiles[f] && !cs.Missing[f] {
-						want = fmt.Sprintf("f%d-%s", f, o.Name)
+						want = o.valueIn(f)
 					}
 				}
 			}
